@@ -911,6 +911,14 @@ def script_symlinked_outputs(st, cw, sb, rng):
             os.remove(p); os.symlink(own, p); tags.append('user:symlink_to_other_target')
             deployed = [q for q in deployed if q not in (rules, agents)]
         for p in rng.sample(deployed, min(len(deployed), rng.randrange(1, 3))):
+            if rng.random() < 0.35:
+                # a second hard link to the deployed file, kept elsewhere (a backup, a dotfiles checkout): replacing the
+                # deployed file must not write through to it
+                hl = os.path.join(sb.home, 'userfiles', 'hardlink%d.txt' % rng.randrange(100))
+                os.makedirs(os.path.dirname(hl), exist_ok=True)
+                if not os.path.lexists(hl) and not os.path.islink(p):
+                    os.link(p, hl); tags.append('user:hardlink')
+                continue
             own = os.path.join(sb.home, 'userfiles', 'own%d.txt' % rng.randrange(3))
             world.write(own, rng.choice([b'my own notes\n', b'keep me\n']))
             os.remove(p); os.symlink(own, p); tags.append('user:symlink')
